@@ -13,10 +13,17 @@ RULE = ("strings one or two edits away from valid input: a set of valid forms (t
         "over the alphabet 0-9:TZW/P+-., YMDHS, a seeded sample of double edits (thorough: ALL double edits of a set of short forms), all "
         "truncations, pairwise concatenations with '', ' ', 'T', '/', random strings over the alphabet, ASCII junk, non-ASCII text, Unicode Nd digits "
         "(Arabic-Indic, Devanagari, fullwidth, mathematical bold) substituted into valid forms, lone surrogates, NUL, whitespace/newline "
-        "prefixes and suffixes, digit runs around 2^32, 10^9 days, 309 digits (float overflow) and 4300 digits (int() limit); every string gets a "
+        "prefixes and suffixes, VALID PREFIX + TRAILING TEXT (stream valid-prefix-trailing-text: every seeded valid form followed by an ASCII pad of "
+        "k = 0..16 bytes -- letters, a blank first, seeded printable junk -- then one character of UTF-8 width 1 / 2 / 3 / 4 bytes (a letter or symbol "
+        "and a Unicode Nd digit per width), then nothing or more text, so that a multi-byte character sits at EVERY byte offset 0..16 of the remainder; "
+        "remainders made of multi-byte characters only; the same characters in front of the form; realistic log-line / calendar / file-name tails "
+        "shifted by 0..11 bytes; the grid under seed-rotated options incl. parse_iso8601 directly, and a compact grid under fixed option sets "
+        "(defaults, strict=False, exact+tz, day_first/year_first; thorough: all six)), digit runs around 2^32, 10^9 days, 309 digits (float overflow) and 4300 digits (int() limit); every string gets a "
         "seed-rotated combination of exact / strict / tz / day_first / year_first and is run through pendulum.parse on both backends "
         "(a subset also through parse_iso8601 directly).  A case is a batch of strings; it is non-trivial when it contains at least one "
-        "string.  Four checks per string: implementation == Coq model; result is a supported value or a ValueError; no wrapped numbers "
+        "string.  Every call is guarded by `except BaseException` (KeyboardInterrupt / SystemExit passed on): an exception outside the Exception "
+        "hierarchy (pyo3's PanicException for a Rust panic) is recorded as the kind BaseException:<name> and is a failure of totality.  "
+        "Four checks per string: implementation == Coq model; result is a supported value or a ValueError; no wrapped numbers "
         "(unbounded-integer reading of duration components); strict=True accepts only the three grammars (independent recognisers); and the "
         "two backends agree whenever both accept.")
 EXHAUSTIVE = {"quick": False, "thorough": False}
@@ -224,9 +231,54 @@ def strings_of(c):
                     continue
                 out.append(t.replace("%s", x))
         return out
+    if fn == "trail":
+        seed, i, mode = a
+        return trail_strings(base_forms(seed)[i], seed * 131 + i, mode)
     if fn == "given":
         return list(a[0])
     raise ValueError(fn)
+
+
+# valid prefix + trailing text.  One character of every UTF-8 width (1..4 bytes; for 2..4 bytes a letter/symbol AND a Unicode Nd digit, which the
+# pure-Python \\d accepts and the compiled to_digit(10) does not) ...
+TRAIL_CHARS = ("x", "\u00e9", "\u0663", "\u2019", "\uff13", "\U0001f600", "\U0001d7d7")
+TRAIL_WIDE = ("\u00e9", "\u2019", "\U0001f600")
+# ... free text the way it follows a timestamp in a log line / calendar entry / file name
+TRAIL_TEXTS = (" \u2013 r\u00e9union d\u2019\u00e9quipe", " heure d\u2019\u00e9t\u00e9", " (Mitteleurop\u00e4ische Zeit)", " \u5348\u524d\u4e5d\u6642\u4e09\u5341\u5206",
+               "_backup_\u20acuro.tar", " +- \u00fcn\u00efc\u00f6d\u00e9")
+TRAIL_MAX_OFF = 16
+_PRINTABLE = "abcdefghijklmnopqrstuvwxyzABCDEFGHIJKLMNOPQRSTUVWXYZ_()[]{}#*!?'\"\\=&%$@;<>|~^` "
+
+
+def _pads(rnd):
+    """three ASCII pad texts of TRAIL_MAX_OFF bytes: letters only, a blank first (the shape of a comment after a timestamp), seeded printable junk"""
+    return ("x" * TRAIL_MAX_OFF, " " + "abcdefghijklmnopqrstuvwxyz"[:TRAIL_MAX_OFF - 1], "".join(rnd.choice(_PRINTABLE) for _ in range(TRAIL_MAX_OFF)))
+
+
+def trail_strings(f, seed, mode):
+    """the valid form f followed (or preceded) by text: a character of every UTF-8 width at EVERY byte offset 0..16 of the remainder"""
+    rnd = random.Random(seed * 2246822519 + 3)
+    pads = _pads(rnd)
+    out = []
+    if mode == "opts":
+        # the compact grid that is run under each fixed option set: multi-byte characters at every offset behind a blank-led ASCII text
+        for ch in TRAIL_WIDE:
+            for k in range(TRAIL_MAX_OFF + 1):
+                out.append(f + pads[1][:k] + ch + " fin")
+        return out
+    for pi, pad in enumerate(pads):
+        for fill in (("", " fin") if pi < 2 else (rnd.choice(("", "yz", " fin de la ligne")),)):
+            for ch in TRAIL_CHARS:
+                for k in range(TRAIL_MAX_OFF + 1):
+                    out.append(f + pad[:k] + ch + fill)
+    for ch in TRAIL_CHARS[1:]:
+        for n in range(1, 10):
+            out.append(f + ch * n)                    # a remainder made of multi-byte characters only
+        out += [ch + f, ch * 3 + f, "x" + ch + f]     # leading non-ASCII
+    for t in TRAIL_TEXTS:
+        for k in range(12):
+            out.append(f + "x" * k + t)
+    return out
 
 
 def items_of(c):
@@ -270,6 +322,10 @@ def cases(tier, seed):
     out.append({"stream": "unicode-digits-and-non-ascii", "fn": "unicode", "args": [seed], "oseed": seed})
     out.append({"stream": "whitespace-newlines", "fn": "space", "args": [seed], "oseed": seed})
     out.append({"stream": "long-digit-runs", "fn": "long", "args": [seed], "oseed": seed})
+    for i in range(len(forms)):
+        out.append({"stream": "valid-prefix-trailing-text", "fn": "trail", "args": [seed, i, "grid"], "oseed": seed + 3 * i})
+        for o in TRAIL_OPTS if tier != "quick" else TRAIL_OPTS[(seed + i) % 2::2]:
+            out.append({"stream": "valid-prefix-trailing-text", "fn": "trail", "args": [seed, i, "opts"], "opts": o})
     for o in ({"exact": 0, "strict": 1, "df": 0, "yf": 1, "tz": None}, {"exact": 1, "strict": 1, "df": 1, "yf": 1, "tz": 3600},
               {"exact": 0, "strict": 0, "df": 0, "yf": 0, "tz": None}):
         for w in WITNESSES:      # one case per witness: every listed finding is the first failure of some case
@@ -279,6 +335,10 @@ def cases(tier, seed):
         out.append({"stream": "witnesses", "fn": "given", "args": [[w]], "opts": {"exact": 1, "strict": 0, "df": 1, "yf": 1, "tz": None}})
     return out
 
+
+TRAIL_OPTS = [{"exact": 0, "strict": 1, "df": 0, "yf": 1, "tz": None}, {"exact": 0, "strict": 0, "df": 0, "yf": 1, "tz": None},
+              {"exact": 1, "strict": 1, "df": 0, "yf": 1, "tz": 3600}, {"exact": 0, "strict": 1, "df": 1, "yf": 0, "tz": None},
+              {"exact": 1, "strict": 0, "df": 1, "yf": 1, "tz": -18000}, {"exact": 0, "strict": 0, "df": 1, "yf": 0, "tz": 20700}]
 
 WITNESSES = ["2:", "2::30", "2:.5", "2021 2:", "20210102 3:", "2021-01-01/P1D", "P1D/2021-01-01", "12:00/P1D", "12:00/13:00", "2021-01-02/12:00", "P1D/P1D", "P/P",
              "P4294967297D", "PT4294967296S", "P99999999999D", "P1000000000D", "P2739727Y", "2021-01-01T00:00:00/P4294967297D",
@@ -297,7 +357,7 @@ WITNESSES = ["2:", "2::30", "2:.5", "2021 2:", "20210102 3:", "2021-01-01/P1D", 
 
 
 def search_cases(seed):
-    return [c for c in cases("thorough", seed + 1) if c["stream"] in ("double-edits-sampled", "random-strings", "concatenations")]
+    return [c for c in cases("thorough", seed + 1) if c["stream"] in ("double-edits-sampled", "random-strings", "concatenations", "valid-prefix-trailing-text")]
 
 
 def nontrivial(c):
@@ -347,7 +407,14 @@ def _canon(r, level):
 
 
 def _exc(e, level):
+    """canonical name of what a call raised.  impl_run catches BaseException: an exception outside the Exception hierarchy (pyo3's PanicException for
+    a Rust panic, GeneratorExit, a BaseException subclass of an extension module) escapes a caller's `except Exception` as well, so it is recorded
+    as its own kind "BaseException:<name>" instead of killing the run; only KeyboardInterrupt / SystemExit are passed on"""
     from pendulum.parsing.exceptions import ParserError
+    if isinstance(e, (KeyboardInterrupt, SystemExit)):
+        raise e
+    if not isinstance(e, Exception):
+        return [1, "BaseException:" + type(e).__name__]
     if level == "top" and isinstance(e, ParserError):
         return [1, "ParserError"]
     if isinstance(e, ValueError):
@@ -370,7 +437,7 @@ def impl_run(cases):
             if lvl == "iso":
                 try:
                     res.append([_canon(pp.parse_iso8601(s), "iso")])
-                except Exception as e:  # noqa
+                except BaseException as e:  # noqa
                     res.append([_exc(e, "iso")])
                 continue
             # options equal to the documented defaults (exact=False, strict=True, day_first=False, year_first=True) are left out,
@@ -389,7 +456,7 @@ def impl_run(cases):
             try:
                 r = pendulum.parse(s, **kw)
                 cr = [0, 6] if s == "now" else _canon(r, "top")
-            except Exception as e:  # noqa
+            except BaseException as e:  # noqa
                 cr = _exc(e, "top")
             item = [cr]
             if not o["strict"]:
@@ -399,12 +466,12 @@ def impl_run(cases):
                     try:
                         p = pendulum.datetime(d.year, d.month, d.day, d.hour, d.minute, d.second, d.microsecond, tz=d.tzinfo or kw.get("tz", pendulum.UTC))
                         item.append(_canon(p, "top"))
-                    except Exception as e2:  # noqa
+                    except BaseException as e2:  # noqa
                         item.append(_exc(e2, "top"))
                 except ValueError:
                     item.append([1, "ParserError"])
-                except Exception as e:  # noqa
-                    item.append([1, type(e).__name__])
+                except BaseException as e:  # noqa
+                    item.append([1, type(e).__name__] if isinstance(e, Exception) else _exc(e, "top"))
             res.append(item)
         out.append(res)
     return out
@@ -792,6 +859,9 @@ LEVEL_TEXT = ("Machine-checked Coq theorems about an executable model of the who
               "strings per run and four independent oracles.  The chain itself (parsing.parse/_parse/_normalize/_parse_common/_parse_iso8601_interval, "
               "parser._parse) is translated from /repo on every run and proved equal to the model (model_is_code_*).")
 DESIGN_REF = "DESIGN.md section 4 C17"
-LEVEL_NOTE = ("Trusted: Coq kernel+VM, the reused C07/C13 models and the hand-written glue (tied by correspondence every run), extraction+driver, the "
+LEVEL_NOTE = ("The trailing-text stream is inside the model (every string goes through the Coq chain as code points; Props/C17.v "
+              "trailing_text_rejected proves the refusal on a 2810-text grid, trailing_text_offsets_covered that the grid reaches every byte offset 0..16); "
+              "what the compiled parser does with the BYTES of the remainder (slicing, diagnostics) is outside the code-point model and is checked by the "
+              "run's totality oracle on both backends. Trusted: Coq kernel+VM, the reused C07/C13 models and the hand-written glue (tied by correspondence every run), extraction+driver, the "
               "stdlib recognisers of the harness. dateutil is an oracle argument: nothing is assumed about it beyond the stated hypothesis.")
 TECHNIQUE = "Coq proof by structural case analysis over result-returning models + differential correspondence on edit neighbourhoods + independent recognisers"
